@@ -18,7 +18,8 @@ static cat_return_state policy(struct hcall *h) { if (h->kind == K_WRITE) { wh_c
 static int vpolicy(int ci, int vi, int dir, size_t ws) { (void)ci; if (dir == 1) { if (nvw < 16) { vw[nvw].vi = vi; vw[nvw].ws = ws; } nvw++; } return 0; }
 
 static long late_event_at; static bool target_implicit;
-static void on_read(size_t off, uint8_t ch) { (void)ch; if ((long)off == late_event_at) { (void)cat_trigger_unsolicited_event(W.at, NOISE_CMD, chance(50) ? CAT_CMD_TYPE_READ : CAT_CMD_TYPE_TEST); CNT("events_raised_while_the_line_ends"); } }
+static struct cat_command *late_target;
+static void on_read(size_t off, uint8_t ch) { (void)ch; if ((long)off == late_event_at) { (void)cat_trigger_unsolicited_event(W.at, late_target ? late_target : NOISE_CMD, chance(50) ? CAT_CMD_TYPE_READ : CAT_CMD_TYPE_TEST); CNT("events_raised_while_the_line_ends"); } }
 void args_describe(FILE *f) { w_describe(f); fprintf(f, "%s\n%s\n", line_desc, ARG_NOTE); io_describe(f); }
 
 static const char *prop_of(const struct cat_variable *v) { return v->type <= CAT_VAR_NUM_HEX ? "C04" : "C05"; }
@@ -40,7 +41,8 @@ struct cat_command *args_world(int nv, bool with_handler, bool need_all, bool sh
                 char nm[16]; unsigned k = rn(6);
                 if (k == 0) snprintf(nm, sizeof nm, "+S%c", 'A' + (int)rn(4)); else if (k == 1) snprintf(nm, sizeof nm, "+SET%zu", i); else if (k == 2) snprintf(nm, sizeof nm, "+"); else snprintf(nm, sizeof nm, "+O%zu", i);
                 arr[i].name = xstr(nm); arr[i].run = h_run; arr[i].disable = chance(20);
-                if (k == 2 && i < tpos) arr[i].disable = true;            /* an enabled "+" before "+S" would only matter for abbreviations; keep "+S" reachable by its full name */
+                if (k == 2 && i < tpos) arr[i].disable = true;
+                if (k == 2 && arr[i].disable && chance(50)) { arr[i].run = NULL; arr[i].write = h_write; arr[i].implicit_write = true; }      /* a disabled implicit-write command whose name is a prefix of the target's: invisible, so it must not cut the name */            /* an enabled "+" before "+S" would only matter for abbreviations; keep "+S" reachable by its full name */
         }
         struct cat_variable *v = w_vars(c, (size_t)nv);
         for (int j = 0; j < nv; j++) {
@@ -66,7 +68,9 @@ void args_run_and_judge(struct cat_command *c, const uint8_t *args, size_t n, co
         for (int j = 0; j < nv; j++) memcpy(before[j], c->var[j].data, c->var[j].data_size);
         nvw = 0; wh_calls = 0; wh_argsnum = 0;
         in_reset(); in_puts(chance(50) ? "AT+S" : "at+s"); if (!target_implicit) in_putc('='); else CNT("lines_to_an_implicit_write_command"); in_put(args, n); in_putc('\n');
-        late_event_at = (NOISE_CMD && chance(50)) ? (long)INLEN - 1 - (long)rn(3) : -1;      /* an event raised while the last argument bytes / the LF arrive: it is formatted next to the complete argument text */
+        late_event_at = (NOISE_CMD && chance(50)) ? (long)INLEN - 1 - (long)rn(3) : -1;
+        late_target = NULL;
+        if (chance(12)) { late_target = c; late_event_at = (long)INLEN - 1 - (long)rn(6); CNT("events_of_the_written_command_itself_raised_while_the_line_ends"); }      /* a READ / TEST event of the very command that is being written */      /* an event raised while the last argument bytes / the LF arrive: it is formatted next to the complete argument text */
         ON_READ = on_read;
         out_reset(); units_reset();
         { char ab[700]; fmt_bytes(ab, sizeof ab, args, n > 200 ? 200 : n); snprintf(line_desc, sizeof line_desc, "arguments (%zu bytes): \"%s\"%s", n, ab, n > 200 ? "..." : ""); }
